@@ -1,6 +1,7 @@
 package main
 
 import (
+	"bytes"
 	"errors"
 	"fmt"
 	"io"
@@ -11,6 +12,7 @@ import (
 	"sort"
 	"strings"
 	"sync"
+	"testing/iotest"
 
 	"github.com/flosch/pongo2/v6"
 )
@@ -77,8 +79,32 @@ func (l *vLoader) Get(p string) (io.Reader, error) {
 		return nil, &os.PathError{Op: "open", Path: p, Err: os.ErrNotExist} // ... or one wrapping fs.ErrNotExist
 	}
 	l.hits = append(l.hits, p)
+	// the reader is whatever the loader likes: every legal io.Reader behaviour delivers the same template
+	switch (len(l.gets) + l.id + len(s)) % 8 {
+	case 0:
+		return iotest.DataErrReader(strings.NewReader(s)), nil // the last bytes arrive together with io.EOF (tar entries ...)
+	case 1:
+		return iotest.OneByteReader(strings.NewReader(s)), nil
+	case 2:
+		return iotest.HalfReader(bytes.NewBufferString(s)), nil
+	case 3:
+		return bytes.NewBufferString(s), nil // has Len(), no Size()/Stat()
+	case 4:
+		return &vSizedReader{Reader: iotest.DataErrReader(bytes.NewReader([]byte(s))), n: len(s)}, nil // Len() + data with EOF
+	case 5:
+		return io.MultiReader(strings.NewReader(s[:len(s)/2]), iotest.DataErrReader(strings.NewReader(s[len(s)/2:]))), nil
+	}
 	return strings.NewReader(s), nil
 }
+
+// vSizedReader: a reader that knows its size up front and delivers its last chunk together with io.EOF.
+type vSizedReader struct {
+	io.Reader
+	n int
+}
+
+func (v *vSizedReader) Len() int    { return v.n }
+func (v *vSizedReader) Size() int64 { return int64(v.n) }
 
 var c11Root string // real directory holding the canary files; all virtual names live below it
 var c11RelNames = []string{"m.tpl", "x1.tpl", "x2.tpl", "a/y1.tpl", "a/y2.tpl", "a/b/z1.tpl", "a/b/z2.tpl", "c/w1.tpl", "c/w2.tpl", "base.tpl", "a/base2.tpl", "lib.tpl", "a/lib2.tpl", "missing.tpl", "a/missing2.tpl"}
@@ -575,8 +601,56 @@ func c11LazySequences(c *C) {
 	c.Nontrivial("lazyseq:" + files["/dir/main.tpl"] + fmt.Sprint(r.U64()%1000))
 }
 
+// c11ManyIncludes: a page that includes existing, shallow partials very many times (rows of a table): each of them is
+// the template its name says, the 1st like the 1500th - by a literal or a computed name, in one loop, in nested loops,
+// as siblings at the top level and inside an included partial.
+func c11ManyIncludes(c *C) {
+	r := c.R
+	n := 1001 + r.Intn(600)
+	rows := make([]int, n)
+	for i := range rows {
+		rows[i] = i
+	}
+	var sib strings.Builder
+	for i := 0; i < n; i++ {
+		sib.WriteString(r.Pick([]string{`{% include "/row.tpl" %}`, `{% include rn %}`, `{% include "/row.tpl" with k=1 %}`}))
+	}
+	forms := []struct{ name, src, want string }{
+		{"static include in one loop", `{% for i in rows %}{% include "/row.tpl" %}{% endfor %}`, strings.Repeat("[row]", n)},
+		{"computed-name include in one loop", `{% for i in rows %}{% include rn %}{% endfor %}`, strings.Repeat("[row]", n)},
+		{"include if_exists in one loop", `{% for i in rows %}{% include "/row.tpl" if_exists %}{% include "/nope.tpl" if_exists %}{% endfor %}`, strings.Repeat("[row]", n)},
+		{"siblings at the top level", sib.String(), strings.Repeat("[row]", n)},
+		{"include of a partial that includes, in one loop", `{% for i in rows %}{% include "/outer.tpl" %}{% endfor %}`, strings.Repeat("<[row]>", n)},
+		{"loop inside an included partial", `{% include "/loop.tpl" %}|{% include "/loop.tpl" %}`, strings.Repeat("[row]", n) + "|" + strings.Repeat("[row]", n)},
+		{"macro called in one loop, including", `{% macro m() %}{% include "/row.tpl" %}{% endmacro %}{% for i in rows %}{{ m() }}{% endfor %}`, strings.Repeat("[row]", n)},
+		{"ssi parsed in one loop", `{% for i in rows %}{% ssi "/row.tpl" parsed %}{% endfor %}`, strings.Repeat("[row]", n)},
+	}
+	f := forms[r.Intn(len(forms))]
+	set, _ := newSet(map[string]string{"/row.tpl": "[row]", "/outer.tpl": `<{% include "/row.tpl" %}>`, "/loop.tpl": `{% for i in rows %}{% include "/row.tpl" %}{% endfor %}`, "/main.tpl": f.src})
+	tpl, err := set.FromFile("/main.tpl")
+	if err != nil {
+		c.Fail("composition-mismatch", D{"form": f.name, "includes": n, "compile_err": err.Error()})
+		return
+	}
+	for run := 0; run < 2; run++ {
+		out, xerr := execSpread(tpl, pongo2.Context{"rows": rows, "rn": "/row.tpl"}, uint64(c.Idx+run))
+		c.Eval(1)
+		if xerr != nil || out != f.want {
+			c.Fail("composition-mismatch", D{"form": f.name, "source": truncStr(f.src, 300), "includes_executed": n, "output": q(truncStr(out, 200)), "output_len": len(out), "expected_len": len(f.want), "exec_err": errStr(xerr), "execution": run + 1,
+				"why": "every include names an existing, acyclic, one-level partial; the number of includes a page executes is not a nesting depth"})
+			return
+		}
+	}
+	c.Cover("many_includes:" + f.name)
+	c.Nontrivial(fmt.Sprintf("many:%s:%d", f.name, n))
+}
+
 func c11Run(c *C) {
 	r := c.R
+	if c.Idx%300 == 7 {
+		c11ManyIncludes(c)
+		return
+	}
 	if c.Idx%6 == 5 {
 		c11LazySequences(c)
 		return
